@@ -429,6 +429,19 @@ func completePathTable(c *Ctx, rule string) {
 		var parts []string
 		for i := range p.Trace {
 			ev := &p.Trace[i]
+			// the operands of a slices.Concat, classified when it was executed
+			if ev.Label == "fact" && strings.HasPrefix(ev.Note, "part:") {
+				switch part := strings.TrimPrefix(ev.Note, "part:"); part {
+				case "":
+				case "prefix-index":
+					if plen > 0 {
+						parts = append(parts, part)
+					}
+				default:
+					parts = append(parts, part)
+				}
+				continue
+			}
 			if ev.Label != "builtin:append" || len(ev.Args) < 2 {
 				continue
 			}
@@ -520,7 +533,52 @@ func completePathTable(c *Ctx, rule string) {
 		{"no origin", false, false, 1, false, "prefix-index + path-index"},
 	} {
 		at := &Atoms{Class: cls, Bool: map[string]bool{"OPRE": sc.opre, "OPATH": sc.opath, "OANY": sc.opre || sc.opath}, Int: map[string]int64{"PLEN": sc.plen}}
-		e := &PPA{Cond: at.Cond, Watch: func(ev *Ev) bool { return ev.Label == "builtin:append" }}
+		e := &PPA{Cond: at.Cond, Watch: func(ev *Ev) bool { return ev.Label == "builtin:append" || ev.Label == "fact" },
+			Probe: func(e *PPA, st *State, fr *Frame, in ssa.Instruction) {
+				// slices.Concat(a, b, c): the result is a, b, c in order, on a fresh backing array
+				call, ok := in.(*ssa.Call)
+				if !ok || len(call.Call.Args) != 1 {
+					return
+				}
+				if g := staticCallee(&call.Call); g == nil || pkgPathOf(g) != "slices" || !strings.HasPrefix(g.Name(), "Concat") {
+					return
+				}
+				els, ok := e.sliceLitElems(st, e.Resolve(st, RV{fr, call.Call.Args[0]}))
+				if !ok {
+					e.emit(st, Ev{Label: "fact", In: in, F: fr, Note: "part:concat(?)"})
+					return
+				}
+				for _, el := range els {
+					r := e.Resolve(st, el)
+					part := "elem(" + Expr(r.V) + ")"
+					switch {
+					case isNilConst(r.V):
+						part = ""
+					case isCallNamed(r.V, fnName(ts)):
+						switch r.V.(*ssa.Call).Call.Args[0] {
+						case prefixP:
+							part = "prefix-index"
+						case pathP:
+							part = "path-index"
+						default:
+							part = "index(?)"
+						}
+					default:
+						if one, ok := e.sliceLitElems(st, r); ok && len(one) == 1 {
+							if oc, ok := e.Resolve(st, one[0]).V.(*ssa.Call); ok && calleeName(&oc.Call) == "(*proto/gnmi.Path).GetOrigin" {
+								switch oc.Call.Args[0] {
+								case prefixP:
+									part = "prefix-origin"
+								case pathP:
+									part = "path-origin"
+								}
+							}
+						}
+					}
+					e.emit(st, Ev{Label: "fact", In: in, F: fr, Note: "part:" + part})
+				}
+				e.emit(st, Ev{Label: "fact", In: in, F: fr, Note: "concat-result"})
+			}}
 		e.Run(cp)
 		c.Paths += len(e.Paths)
 		c.Scen++
@@ -539,7 +597,7 @@ func completePathTable(c *Ctx, rule string) {
 			// not something computed from it (filtered, re-sliced, converted)
 			var lastApp ssa.Value
 			for j := range p.Trace {
-				if p.Trace[j].Label == "builtin:append" {
+				if p.Trace[j].Label == "builtin:append" || (p.Trace[j].Label == "fact" && p.Trace[j].Note == "concat-result") {
 					lastApp, _ = p.Trace[j].In.(ssa.Value)
 				}
 			}
